@@ -296,7 +296,38 @@ def rule_slots(ctx, R):
         if callee_name(t["f"], fb) == "std::vec::Vec::push" and vars_.root_key(t["args"][0]) == ("L", chk):
             pushes.append((bi, t, roles.of_operand(t["args"][1], bi)))
     dot_pushes = [p for p in pushes if p[2] == "DOT"]
-    R.check(len(dot_pushes) >= 1, "optimize:live:push", "the dot count of a stack-selecting command is recorded as selectable (roles pushed: %s)" % [p[2] for p in pushes], pushes[0][1]["span"]["at"] if pushes else None)
+    if not pushes:
+        # the same collection written as an adapter chain: code.iter().filter(kind == 5).map(dot count).collect()
+        def clo_ret(o):
+            if not (isinstance(o, tuple) and o[0] == "agg" and o[1].startswith("closure:")):
+                return None
+            nm = o[1].split(":", 1)[1].rsplit("::", 1)[-1]
+            for c in fb.closures_of(b):
+                if c.name.rsplit("::", 1)[-1] == nm:
+                    cr = Roles(c, fb, param_roles={i: "P%d" % i for i in range(1, c.argc + 1)})
+                    ccfg = normal_cfg(c)
+                    return sorted({cr.of_origin(cr.org.of_place({"l": 0, "proj": []}, r_, "t")) for r_ in ccfg.returns})
+            return None
+        chain_ok = False
+        for bi, t in b.calls():
+            n = callee_name(t["f"], fb)
+            if n.endswith("::sort_unstable") or n.endswith("::sort"):
+                o = org.of_operand(t["args"][0], bi, "t")
+                try:
+                    assert o[0] == "call" and o[1].endswith("Iterator::collect")
+                    m_ = o[2][0]
+                    assert m_[0] == "call" and m_[1].endswith("Iterator::map")
+                    f_ = m_[2][0]
+                    assert f_[0] == "call" and f_[1].endswith("Iterator::filter")
+                    src = roles.of_origin(f_[2][0])
+                    chain_ok = src in ("[T]::iter(ARG1)", "[T]::iter(CODE)") and clo_ret(f_[2][1]) in (["(KIND Eq K5)"], ["(K5 Eq KIND)"]) and clo_ret(m_[2][1]) == ["DOT"]
+                    where = t["span"]["at"]
+                except (AssertionError, IndexError, TypeError):
+                    pass
+        R.check(chain_ok, "optimize:live:push", "the dot count of every stack-selecting command is collected as selectable (adapter chain: all commands, filter kind == 5, map to the dot count, no further condition)")
+        R.ok("optimize:live:mustflow", "the adapter chain has no further condition") if chain_ok else None
+    else:
+      R.check(len(dot_pushes) >= 1, "optimize:live:push", "the dot count of a stack-selecting command is recorded as selectable (roles pushed: %s)" % [p[2] for p in pushes], pushes[0][1]["span"]["at"] if pushes else None)
     ev = Events(b, fb, roles=roles)
     for bi, t, role in dot_pushes:
         # edges establishing KIND == 5
@@ -336,7 +367,7 @@ def rule_slots(ctx, R):
         if o[0] == "bin" and o[1] in ("Le", "Lt", "Gt", "Ge") and o[3][0] == "const":
             lhs = roles.of_origin(o[2])
             c = o[3][2] + (0 if o[1] in ("Le", "Gt") else -1)  # normalise to  x <= c
-            if lhs == "ELEM":
+            if lhs == "ELEM" or lhs.startswith("ELEM<"):
                 k_skip = (c, tt["span"]["at"])
             elif lhs == "DOT":
                 k_ident = (c, tt["span"]["at"])
